@@ -240,4 +240,115 @@ theorem flipFreeBitsFrom_spec (slots : Slots) (fuel v : Nat) (st : List Bool) (r
 theorem flipFreeBits_slots (cfg : Config) (rs : RS) : (flipFreeBits cfg rs).1.slots = cfg.slots := by
   unfold flipFreeBits; rfl
 
+/-! ### the free-spin refresh keeps world lines periodic -/
+
+theorem foldl_set_comm (l : List (Nat × Bool)) (st : List Bool) (v : Nat) (b : Bool)
+    (h : ∀ x ∈ l, x.1 ≠ v) :
+    l.foldl (fun s vb => s.set vb.1 vb.2) (st.set v b)
+      = (l.foldl (fun s vb => s.set vb.1 vb.2) st).set v b := by
+  induction l generalizing st with
+  | nil => rfl
+  | cons a t ih =>
+    simp only [List.foldl_cons]
+    have ha : a.1 ≠ v := h a (by simp)
+    rw [List.set_comm _ _ (Ne.symm ha), ih _ (fun x hx => h x (by simp [hx]))]
+
+theorem writeVars_set_comm (st : List Bool) (vars : List Nat) (vals : List Bool) (v : Nat) (b : Bool)
+    (h : v ∉ vars) : writeVars (st.set v b) vars vals = (writeVars st vars vals).set v b := by
+  unfold writeVars
+  apply foldl_set_comm
+  intro x hx e
+  exact h (e ▸ (List.of_mem_zip hx).1)
+
+theorem all_congr_mem {α} (l : List α) (p q : α → Bool) (h : ∀ x ∈ l, p x = q x) :
+    l.all p = l.all q := by
+  induction l with
+  | nil => rfl
+  | cons a t ih =>
+    simp only [List.all_cons]
+    rw [h a (by simp), ih (fun x hx => h x (by simp [hx]))]
+
+theorem inputsMatch_set (st : List Bool) (o : Op) (v : Nat) (b : Bool) (h : v ∉ o.vars) :
+    inputsMatch (st.set v b) o = inputsMatch st o := by
+  unfold inputsMatch
+  apply all_congr_mem
+  intro x hx
+  have : x.1 ≠ v := fun e => h (e ▸ (List.of_mem_zip hx).1)
+  rw [List.getElem?_set_ne (Ne.symm this)]
+
+theorem applyOp_set (st : List Bool) (o : Op) (v : Nat) (b : Bool) (h : v ∉ o.vars) :
+    applyOp (st.set v b) o = (applyOp st o).map (·.set v b) := by
+  unfold applyOp
+  rw [inputsMatch_set st o v b h]
+  split
+  · simp [writeVars_set_comm _ _ _ _ _ h]
+  · rfl
+
+/-- a variable no op of the segment acts on is carried through `propagate` untouched -/
+theorem propagate_set_untouched (seg : Slots) (st : List Bool) (v : Nat) (b : Bool)
+    (h : ∀ o, some o ∈ seg → v ∉ o.vars) :
+    propagate (st.set v b) seg = (propagate st seg).map (·.set v b) := by
+  induction seg generalizing st with
+  | nil => rfl
+  | cons a t ih =>
+    have ht : ∀ o, some o ∈ t → v ∉ o.vars := fun o ho => h o (by simp [ho])
+    cases a with
+    | none => simp only [propagate]; exact ih st ht
+    | some o =>
+      simp only [propagate]
+      rw [applyOp_set st o v b (h o (by simp))]
+      cases applyOp st o with
+      | none => rfl
+      | some st' => simp only [Option.map_some]; exact ih st' ht
+
+theorem not_mem_vars_of_indexOfVar_none (o : Op) (v : Nat) (h : o.indexOfVar v = none) : v ∉ o.vars := by
+  unfold Op.indexOfVar at h
+  simp only at h
+  split at h
+  · cases h
+  · rename_i hlt
+    intro hm
+    exact hlt (List.idxOf_lt_length_of_mem hm)
+
+theorem no_ops_of_varHasOps_false (slots : Slots) (v : Nat) (h : varHasOps slots v = false) :
+    ∀ o, some o ∈ slots → v ∉ o.vars := by
+  intro o ho
+  unfold varHasOps at h
+  simp only [Bool.not_eq_false', List.isEmpty_iff] at h
+  obtain ⟨p, hp, hpe⟩ := List.getElem_of_mem ho
+  apply not_mem_vars_of_indexOfVar_none
+  cases hi : o.indexOfVar v with
+  | none => rfl
+  | some r =>
+    exfalso
+    have : (p, r) ∈ occV slots v := by
+      unfold occV
+      rw [List.mem_filterMap]
+      refine ⟨p, List.mem_range.mpr hp, ?_⟩
+      rw [List.getElem?_eq_getElem hp, hpe]
+      simp [hi]
+    rw [h] at this
+    simp at this
+
+theorem flipFreeBitsFrom_consistent (slots : Slots) (fuel v : Nat) (st : List Bool) (rs : RS)
+    (h : propagate st slots = some st) :
+    propagate (flipFreeBitsFrom slots fuel v st rs).1 slots = some (flipFreeBitsFrom slots fuel v st rs).1 := by
+  induction fuel generalizing v st rs with
+  | zero => exact h
+  | succ f ih =>
+    unfold flipFreeBitsFrom
+    split
+    · exact ih _ _ _ h
+    · rename_i hv
+      simp only
+      apply ih
+      rw [propagate_set_untouched slots st v _ (no_ops_of_varHasOps_false slots v (by simpa using hv)), h]
+      rfl
+
+/-- the free-spin refresh keeps world lines periodic -/
+theorem flipFreeBits_consistent (cfg : Config) (rs : RS) (h : Consistent cfg) :
+    Consistent (flipFreeBits cfg rs).1 := by
+  unfold Consistent at h ⊢
+  exact flipFreeBitsFrom_consistent cfg.slots cfg.state.length 0 cfg.state rs h
+
 end Qmc
